@@ -337,6 +337,36 @@ class Extractor:
                     raise Undecided("lost anchor: container `%s` of `%s` in %s: %d matches" % (csel, sel, rel, len(cs)))
                 within = cs[0]
             found = self.find(rel, sel, within=within)
+            if found and ent.get("block"):
+                # T14: "block": {"from": <text of a line>, "to": <text of a later line>, "qual": name,
+                #                "wrap_prefix": "fn name(..) -> .. {", "wrap_suffix": "... }"}
+                # The statements strictly between the two anchor lines of fn `sel` are copied byte for byte and wrapped
+                # into a synthetic function; the rest of the host function is dropped (stated in the evidence).
+                b = ent["block"]
+                host = found[0]
+                body = txt[host.body_open:host.body_close]
+                lines = body.split("\n")
+                offs = []
+                off = host.body_open
+                for ln in lines:
+                    offs.append(off)
+                    off += len(ln) + 1
+                i_from = [i for i, ln in enumerate(lines) if rs.norm_ws(b["from"]) in rs.norm_ws(ln)]
+                i_to = [i for i, ln in enumerate(lines) if rs.norm_ws(b["to"]) in rs.norm_ws(ln)]
+                if len(i_from) != 1 or len(i_to) != 1 or i_to[0] <= i_from[0]:
+                    raise Undecided("lost anchor: block of `%s` between `%s` and `%s`" % (sel, b["from"], b["to"]))
+                a0 = offs[i_from[0] + 1]
+                a1 = offs[i_to[0]]
+                qual = b["qual"]
+                self.functions.append(dict(name=qual, file=rel, line_start=self.line_of(txt, a0), line_end=self.line_of(txt, a1 - 1),
+                                           sha256=hashlib.sha256(txt[a0:a1].encode()).hexdigest()))
+                self.transforms.add("T14")
+                ot = OText.synthetic(b["wrap_prefix"] + "\n") + OText.from_src(txt, a0, a1, fi) + OText.synthetic(b["wrap_suffix"] + "\n")
+                ot = self.phase1(ot, strip_async, rewrites + ent.get("rewrites", []))
+                ot = self._drop_inner_attrs(ot)
+                ot = self.phase2_fn(ot, qual)
+                out = out + OText.synthetic("\n") + ot + OText.synthetic("\n")
+                continue
             if not found and ent.get("optional"):
                 # "optional": true -- item that exists only in some revisions of the tree (e.g. a helper introduced by a
                 # fix); sidecar directives for it are then not required to be placed
